@@ -566,3 +566,14 @@ func (prop) Shrink(in json.RawMessage) []json.RawMessage {
 	}
 	return out
 }
+
+// Extra only reports, for the evidence, whether the small-scope enumeration was part of the run.
+func (prop) Extra(_ *core.RNG, tier string, _ string) ([]string, []string, map[string]any) {
+	if tier != "thorough" {
+		return nil, nil, map[string]any{"exhaustive": false}
+	}
+	return nil, nil, map[string]any{
+		"exhaustive":       true,
+		"exhaustive_scope": "every T format of length <= 5 over {a x @ ' % \\n _ space} x 2 binding environments (3 up to length 4); every Sprintf format of length <= 5 over {a % v T @ '} x 3 argument lists",
+	}
+}
